@@ -50,8 +50,16 @@ func eqInts(a, b []int) bool {
 
 type annObj struct{ metav1.ObjectMeta }
 
+var annSeq int
+
 func objWithAnn(text *string) *annObj {
 	o := &annObj{}
+	// half of the objects look like something read from the API server (identity + version): helpers
+	// must answer from the annotation the object carries now, whatever they saw under that identity before
+	annSeq++
+	if annSeq%2 == 0 {
+		o.UID, o.ResourceVersion = "uid-fixed", "42"
+	}
 	if text != nil {
 		o.Annotations = map[string]string{helper.DeleteSlotsAnn: *text, "other": "x"}
 	}
